@@ -6,7 +6,7 @@
    Proofs/Replicas_proofs.v.
 
    [g] is always the global ring as `TokenRing::new` stores it (sorted by token, stable). *)
-From SV Require Import Base.Prelude Model.Ring.
+From SV Require Import Base.Prelude Model.Ring Model.Shard.
 Open Scope Z_scope.
 
 Inductive strategy :=
@@ -296,6 +296,33 @@ Section Topo.
       end.
     Definition rs_run (s : rset) (ops : list iop) : list (option N) := it_run ops (it_init s).
 
+    (* ReplicaSetIterator::size_hint.  usize subtraction is written with truncated [-]; that it
+       never underflows in a reachable state is part of C04_size_hint. *)
+    Definition sum_rf (m : list (N * nat)) : nat := fold_right (fun e acc => (snd e + acc)%nat) 0%nat m.
+    Definition it_size_hint (st : istate) : nat * nat :=
+      match st with
+      | IPlain l idx => ((List.length l - idx)%nat, (List.length l - idx)%nat)
+      | IFiltered l _ idx => (0%nat, (List.length l - idx)%nat)
+      | IChained m cur ridx rest =>
+          (* datacenter_idx = number of ring datacenters already left behind *)
+          let prev := firstn (List.length (ring_dcs g) - S (List.length rest)) (ring_dcs g) in
+          let yielded := (fold_right (fun d acc => (rf_or0 m d + acc)%nat) 0%nat prev + ridx)%nat in
+          ((List.length cur - ridx)%nat, (sum_rf m - yielded)%nat)
+      end.
+    Fixpoint it_run_hints (ops : list iop) (st : istate) : list (nat * nat) :=
+      it_size_hint st ::
+      match ops with
+      | [] => []
+      | op :: r => it_run_hints r (snd (match op with INext => it_next st | INth k => it_nth k st end))
+      end.
+    Definition rs_run_hints (s : rset) (ops : list iop) : list (nat * nat) := it_run_hints ops (it_init s).
+    (* ReplicasOrderedIterator::size_hint before the first next() *)
+    Definition rs_ordered_hint (s : rset) : nat * nat :=
+      match s with
+      | RChained m => (0%nat, sum_rf m)
+      | _ => it_size_hint (it_init s)
+      end.
+
     (* ReplicaSet::choose with the random index as an oracle argument (the code draws it from
        0..len and returns None when len = 0) *)
     Fixpoint choose_chained (m : list (N * nat)) (dcs : list N) (to_skip : nat) : option N :=
@@ -421,6 +448,29 @@ Fixpoint nodupb (l : list N) : bool :=
 (* same set of nodes, no node twice *)
 Definition same_set (a b : list N) : bool :=
   nodupb a && nodupb b && subset a b && subset b a.
+
+(* ---- with_computed_shard ------------------------------------------------------------------
+   Every view of a token-ring ReplicaSet yields (node, shard) with
+   `node.sharder().map(|sharder| sharder.shard_of(token)).unwrap_or(0)`; [sharderf n] is the node's
+   sharder (nr_shards, msb_ignore) if it has one; shard_of is C11's model (Model/Shard.v). *)
+Definition computed_shard (sharderf : N -> option (N * N)) (t : Z) (n : N) : N :=
+  match sharderf n with
+  | Some (nr, msb) => shard_of nr msb t
+  | None => 0%N
+  end.
+Definition with_shards (sharderf : N -> option (N * N)) (t : Z) (l : list N) : list (N * N) :=
+  map (fun n => (n, computed_shard sharderf t n)) l.
+(* the server side: ScyllaDB's shard of the token on that node *)
+Definition spec_node_shard (sharderf : N -> option (N * N)) (t : Z) (n : N) : N :=
+  match sharderf n with
+  | Some (nr, msb) => spec_shard_of nr msb t
+  | None => 0%N
+  end.
+Fixpoint assoc_pair (l : list (N * option (N * N))) (n : N) : option (N * N) :=
+  match l with
+  | [] => None
+  | (k, v) :: r => if N.eqb k n then v else assoc_pair r n
+  end.
 
 (* what interleaved next() / nth(n) mean on the sequence an iterator yields *)
 Fixpoint list_run (ops : list iop) (l : list N) : list (option N) :=
